@@ -1,0 +1,13 @@
+//go:build verif
+
+// Contracts for package jobstorage, read by /verif/gvc (comment-only file; it
+// declares nothing and is compiled only with -tags verif).
+package jobstorage
+
+//@ func JobMatch
+//@   property C11
+//@   nopanic
+//@   loop 1 invariant bound: 0 <= i && i <= len(job) && len(job) <= len(query)
+//@   loop 1 invariant acc: match <==> (forall j :: 0 <= j && j < i ==> query[j] == job[j])
+//@   ensures prefix: result <==> (len(job) >= 2 && len(job) <= len(query) &&
+//@       (forall j :: 0 <= j && j < len(job) ==> query[j] == job[j]))
